@@ -604,9 +604,11 @@ class Checker:
         arr = np.broadcast_to(np.asarray(x, dtype=float), (self.prof.n,))
         return [float(v) for v in arr]
 
+    clause_prefix = ''
+
     def fail(self, clause, where, disc, detail):
         """True if this is a listed known finding (caller decides how to go on)."""
-        self.ctx.fail(clause, 'mismatch', where, disc, detail, self.case)
+        self.ctx.fail(self.clause_prefix + clause, 'mismatch', where, disc, detail, self.case)
         return True
 
     def call(self, clause, fn, *a, **k):
@@ -969,6 +971,19 @@ def body(ctx: core.Ctx, case):
         ctx.label('case:stopped_after_finding')
         return
     ck.iteration()
+    if ck.stop:
+        return
+    # The model reads its coefficients from the (mutable) parameter object it was given: after the library's
+    # own update call on that object the same model must follow the new coefficients (nothing remembered).
+    eff = ck.eff
+    upd = {'h_p_des': eff['h_p_des'] * (0.4 if int(eff['h_p_des']) % 2 else 2.5),
+           'c_tdes_low': eff['c_tdes_low'] * 1.3, 'c_tdes_high': eff['c_tdes_high'] * 0.8, 'c_f1': eff['c_f1'] * 1.1}
+    ck.ap.assign_parameters_fromdict(upd)
+    ck.eff = dict(eff, **{k: getattr(ck.ap, k) for k in upd})
+    ck.ref = Ref(ck.engine, ck.eff)
+    ck.clause_prefix = 'after_parameter_update.'
+    ctx.label('parameter_update_on_same_model')
+    ck.pointwise()
 
 
 # ---- step 0: is anything reachable at all?
